@@ -65,3 +65,58 @@ contract(
     raises={}, raises_only=[], modifies=[], allocates=False,
     properties=['C04'],
 )
+
+# ---- the recursion and the tail of validate() (C04): errors are only ever appended, and the three ways of reporting them
+# (exception, ErrorsAndWarnings, True) agree with the collected list
+_GROWS = [('errors_only_appended', 'len(errs) >= old(len(errs)) and all(errs[i] == old(errs[i]) for i in range(old(len(errs))))'),
+          ('warnings_only_appended', 'len(warns) >= old(len(warns)) and all(warns[i] == old(warns[i]) for i in range(old(len(warns))))')]
+for _n in ('_check_known_element', '_check_z_element'):
+    contract(
+        V + _n,
+        sig=({'el': 'Element', 'ref': 'any', 'errs': 'list[any]', 'warns': 'list[any]'} if _n == '_check_known_element'
+             else {'el': 'Element', 'errs': 'list[any]', 'warns': 'list[any]'}),
+        returns='any',
+        ensures=list(_GROWS),
+        raises={n: {} for n in ('HL7apyException', 'AttributeError', 'TypeError', 'KeyError', 'IndexError', 'ValueError')},
+        modifies=None,
+        interface=True, verify=False,
+        notes='assumed for the mutually recursive walk (errors are only appended): the per-element checks it is made of '
+              '(_check_repetitions, _check_datatype, _check_length, _get_child_reference_info) are proved above',
+    )
+
+contract(
+    V + '_is_valid',
+    sig={'el': 'Element', 'ref': 'any', 'errs': 'list[any]', 'warns': 'list[any]'},
+    returns='any',
+    requires=['errs is not warns'],
+    ensures=list(_GROWS) + [
+        # an element the structure does not know is reported, once, and not descended into
+        ('unknown_reported', 'implies(old(is_unknown_of(el)), len(errs) == old(len(errs)) + 1 and len(warns) == old(len(warns)))'),
+    ],
+    raises={n: {} for n in ('HL7apyException', 'AttributeError', 'TypeError', 'KeyError', 'IndexError', 'ValueError')},
+    modifies=None,
+    properties=['C04'],
+)
+
+# ---- validate(): the three ways of reporting agree (C04)
+contract(
+    'hl7apy.validation:Validator.validate',
+    sig={'element': 'Element', 'reference': 'any', 'report_file': 'any', 'return_errors': 'bool'},
+    returns='any',
+    requires=['report_file is None'],
+    ensures=[
+        # without return_errors the only normal result is True (errors are raised instead)
+        ('true_or_raise', 'implies(not return_errors, result == True)'),
+        # with return_errors: is_valid says exactly whether the error list is empty
+        ('report_consistent', 'implies(return_errors, report_is_valid(result) == (report_error_count(result) == 0))'),
+    ],
+    # `raise errors[0]`: the first collected error (a value of the untyped list: pseudo-class DynamicException) - raised
+    # only when the caller did not ask for the report; everything else comes out of the walk itself
+    raises={n: ({'when': 'not return_errors'} if n == 'DynamicException' else {})
+            for n in ('DynamicException', 'HL7apyException', 'AttributeError', 'TypeError', 'KeyError', 'IndexError', 'ValueError')},
+    raises_only=['DynamicException', 'HL7apyException', 'AttributeError', 'TypeError', 'KeyError', 'IndexError', 'ValueError'],
+    modifies=None,
+    local_types={'errors': 'list[any]', 'warnings': 'list[any]'},
+    properties=['C04'],
+    notes='report_file is None (the file-writing branches are I/O: bounded driver); the walk itself is the closures above',
+)
